@@ -628,7 +628,8 @@ def gen_inputs(rng, tier, samples, c):
     for name, data in CORPUS:
         out.append(dict(kind="corpus", sub=name, data=data, mode="s"))
     for cons in sorted(NEST):
-        for d in depths + ([200000] if cons in ("chain", "strcat") else []):
+        # bracketed nesting far beyond bison's stack limit must end in a diagnostic ("memory exhausted"), never in a crash
+        for d in depths + ([200000] if cons in ("chain", "strcat") else []) + ([400000] if cons in ("paren", "block", "neg", "array") else []):
             if cons == "strcat" and 20000 < d < 200000:
                 continue                      # quadratic folding: seconds under load, neither hang nor crash
             out.append(dict(kind="nest", sub=cons, depth=d, data=NEST[cons](d).encode(), mode="s"))
